@@ -27,7 +27,7 @@ REQUIRED = {"grammar.fault_free": {"quick": 100, "thorough": 5000}, "grammar.und
             "fault.before_phase_suppresses_body": {"quick": 800, "thorough": 60000},
             "fault.run_fails": {"quick": 3000, "thorough": 200000}, "model.hook_sequence": {"quick": 80, "thorough": 4000},
             "dry_run.no_hooks": {"quick": 5, "thorough": 300}}
-REQUIRED_SEEN = {"hook_decoration": ["capture", "plain"], "hook_habit": ["reads_status_of_its_element", "plain"], "fault_hook": ["before_all", "after_all", "before_feature", "after_feature", "before_rule", "after_rule",
+REQUIRED_SEEN = {"selection_shape": ["by_rendered_outline_tag"], "hook_decoration": ["capture", "plain"], "hook_habit": ["reads_status_of_its_element", "plain"], "fault_hook": ["before_all", "after_all", "before_feature", "after_feature", "before_rule", "after_rule",
                                 "before_scenario", "after_scenario", "before_step", "after_step", "before_tag", "after_tag"],
                  "tag_hook_owner_kind": ["feature", "rule", "scenario"]}
 EXHAUSTIVE = True
@@ -408,7 +408,29 @@ def run(spec, mon):
             # scenarios without any step (title and tags only) in features without background, skipped by the environment:
             # a skipped element gets no hook, however little there is in it
             gen.update({"p_stepless": 0.3, "p_background": 0.0, "p_rule_background": 0.0})
+        if i % 4 == 3:
+            # hardly any plain tags, outlines with parametrised tags and untagged Examples: a selection by a RENDERED tag
+            # (@p.<t> -> --tags=@p.a) is the only reason for the enclosing feature / rule to run -- with all their hooks
+            gen.update({"p_tag": 0.08, "p_param_tag": 1.0, "p_outline": 0.7, "max_items": 3})
         case = RB.gen_case(rng, gen=gen, p_stop=0.25, p_dry=0.08, p_noskipped=0.3, p_names=0.2, p_user_skip=0.6 if i % 4 == 2 else 0.15)
+        if i % 4 == 3:
+            tv = rng.choice(gen.get("tags") or ["a", "b", "c", "d", "e"])
+            form = rng.choice(["@%s", "@p.%s", "p.%s or %s"])
+            expr = form % ((tv, tv) if form.count("%s") == 2 else tv)
+            ast = ["or", ["lit", "p." + tv], ["lit", tv]] if form.count("%s") == 2 else ["lit", (form % tv).lstrip("@")]
+            for f in case["program"]["features"]:
+                def strip_ex(c):
+                    for it in c["items"]:
+                        if it["kind"] == "rule":
+                            strip_ex(it)
+                        elif it["kind"] == "outline":
+                            for ex in it["examples"]:
+                                ex["tags"] = []
+                strip_ex(f)
+                f.pop("_text", None)
+            case["cfg"]["tags"] = ast
+            case["args"] = ["--tags=%s" % expr] + [a for a in case["args"] if not a.startswith("--tags")]
+            mon.seen("selection_shape", "by_rendered_outline_tag")
         if i % 4 == 2 and case["program"].get("user_skip"):
             mon.seen("environment_skips_container_with_stepless_scenarios", "yes")
         lab.capture_hooks = None
